@@ -7,6 +7,8 @@ Tie: correspondence of
   * bus-send     : OperatingRetort._provide_from_recipe with real ChainingProvider  vs  `send`
   * bus-log      : the recipe positions of the handlers invoked during that call, in order  vs  `sendLog`
   * facade       : public Retort(recipe=[loader(...)...]).load / extend / replace / nested retort vs `send`
+  * facade-history : multi-step histories of new / extend / replace / nest (plain, bound) / use in every order
+                     (harness/props/c09_histories.py)  vs  `serveTree` over the retort trees
 Direct oracle (real code only, Python): outcome == documented first-match/chaining
 meaning computed on the linear recipe; no handler invoked twice on a successful request.
 """
@@ -15,6 +17,7 @@ import itertools
 from dataclasses import dataclass
 
 from harness.core import Ctx, Driver, InfraError
+from harness.props import c09_histories
 
 ID = "C09"
 CLAIM = {
@@ -27,9 +30,12 @@ CLAIM = {
         "handlers the bus itself invokes for a served request are the matching providers up to the first that "
         "neither declines nor delegates, each once (served_request_consults_prefix, no_provider_twice_send, "
         "later_consulted_only_after_delegation over the instrumented bus sendLog); a retort in a recipe answers "
-        "from its own recipe (nested_retort_serves_own_recipe); extend prepends. The model is tied to the code by "
-        "five correspondences (router items, router walk, bus outcome with the real ChainingProvider, the bus's "
-        "invocation log, public facade incl. extend/replace/nested retort)."
+        "from its own recipe (nested_retort_serves_own_recipe); extend prepends; a retort placed (plain or bound) at any "
+        "depth serves from its own recipe and option, also when it was derived by extend / replace before being placed "
+        "(nested_tree_serves_own_recipe, nested_extend_prepends, nested_replace_only_option, derived_direct). The model "
+        "is tied to the code by six correspondences (router items, router walk, bus outcome with the real "
+        "ChainingProvider, the bus's invocation log, public facade incl. extend/replace/nested retort, multi-step "
+        "retort histories new/extend/replace/nest/use in every order vs serveTree)."
     ),
     "note": (
         "Trusted: Lean 4.33 kernel; axioms audited each run (subset of propext, Classical.choice, Quot.sound). The theorems "
@@ -851,6 +857,51 @@ def facade_options(ctx: Ctx, real: Real):
                  {"suite": "facade", "mode": "nested-options"})
 
 
+def suite_histories(ctx: Ctx, drv, n_random: int):
+    """multi-step retort histories (c09_histories): direct oracle from the recipes alone + correspondence with `serveTree`"""
+    uni = c09_histories.Universe()
+    histories = c09_histories.directed_histories() + [c09_histories.gen_history(ctx.rng) for _ in range(n_random)]
+    observations = []
+    for ops in histories:
+        observations += c09_histories.run_history(ctx, uni, ops, py_spec_send)
+    if not drv:
+        return
+    requests, index, cache = [], [], {}
+    for case, what, got, queries in observations:
+        slots = {}
+        for k, (tree, req) in queries.items():
+            key = core_canon((tree, req))
+            if key not in cache:
+                cache[key] = len(requests)
+                requests.append({"op": "serve_tree", "recipe": tree["recipe"], "opt": tree["opt"], "depth": _depth(tree) + 1,
+                                 "req": req})
+            slots[k] = cache[key]
+        index.append(slots)
+    replies = drv.batch(requests)
+    n = d = 0
+    for (case, what, got, queries), slots in zip(observations, index):
+        results = {k: replies[i].get("ok") for k, i in slots.items()}
+        n += 1
+        if any(not isinstance(r, dict) or "r" not in r for r in results.values()):
+            d += 1
+            ctx.disagree("facade-history", case, list(got), {k: replies[i] for k, i in slots.items()})
+            continue
+        ok, want = c09_histories.judge(what, got, results)
+        if ok is False:
+            d += 1
+            ctx.disagree("facade-history", case, list(got), {"model_outcomes": results, "shown_as": want})
+    ctx.suite("facade-history", n, d)
+
+
+def core_canon(obj):
+    from harness.core import canon
+    return canon(obj)
+
+
+def _depth(tree):
+    return 1 + max([_depth(e) for e in tree["recipe"] if e["p"] == "nested"], default=0)
+
+
 def run(ctx: Ctx):
     real = Real()
     drv = None
@@ -865,6 +916,7 @@ def run(ctx: Ctx):
     for _ in range(ctx.budget(400, 6000)):
         facade_case(ctx, real, ctx.rng)
     facade_options(ctx, real)
+    suite_histories(ctx, drv, ctx.budget(140, 3000))
     for _ in range(ctx.budget(150, 3000)):
         recursive_chain_case(ctx, real, ctx.rng)
     for _ in range(ctx.budget(200, 3000)):
@@ -887,6 +939,8 @@ def search(ctx: Ctx):
     if not ctx.failures:
         suite_send(ctx, real, None, n_random=20000, exhaustive_len=3)
         suite_items_and_walk(ctx, real, None, max_len=4, extra_random=5000)
+    if not ctx.failures:
+        suite_histories(ctx, None, 1500)
     if not ctx.failures:
         for _ in range(1500):
             recursive_chain_case(ctx, real, ctx.rng)
@@ -912,6 +966,8 @@ def replay(ctx: Ctx, case) -> bool:
         expect = [i for i, c in enumerate(case["checkers"]) if py_check(c, case["req"])]
         if seen != expect:
             ctx.fail("walk", f"consulted {seen}, first-match order {expect}", case)
+    elif case.get("suite") == "facade-history":
+        c09_histories.run_history(ctx, c09_histories.Universe(), case["ops"], py_spec_send)
     elif case.get("suite") == "recursive-chain":
         import random
         for k in range(40):
